@@ -68,3 +68,21 @@ Print Assumptions C02_source_hash_is_mcrf4xx.
 Theorem C02_source_sum_bytes : forall c b, src_x25_X25_Sum c b = (b ++ X25.x25_sum_bytes c)%list.
 Proof. exact src_x25_sum. Qed.
 Print Assumptions C02_source_sum_bytes.
+
+(* GenerateChecksum of V1Frame and V2Frame, translated statement by statement from the source on
+   every run (x25.New, the Write calls in their order, the 24-bit id through uint24Encode, Sum16):
+   for every frame holding a raw message it is the model's gen_checksum — the X.25 hash over
+   length .. payload followed by the CRC_EXTRA byte — which the theorems above prove to be
+   CRC-16/MCRF4XX and to be what the reader's gate compares *)
+From GM Require Import SrcFrame SrcFrameCkTie.
+Theorem C02_source_checksum_v1 : forall f id p extra, Frame.f_v2 f = false ->
+  src_frame_V1Frame_GenerateChecksum (Frame.f_seq f) (Frame.f_sys f) (Frame.f_comp f) extra p id =
+  Frame.gen_checksum f id p extra.
+Proof. exact src_v1_checksum. Qed.
+Print Assumptions C02_source_checksum_v1.
+
+Theorem C02_source_checksum_v2 : forall f id p extra, Frame.f_v2 f = true ->
+  src_frame_V2Frame_GenerateChecksum (Frame.f_inc f) (Frame.f_cmp f) (Frame.f_seq f) (Frame.f_sys f) (Frame.f_comp f)
+    extra p id = Frame.gen_checksum f id p extra.
+Proof. exact src_v2_checksum. Qed.
+Print Assumptions C02_source_checksum_v2.
